@@ -74,12 +74,14 @@ pub fn atomicity_grammar_with(ws: bool, comment: bool, depth3: bool, block: bool
     for k in Kind::ALL {
         out.push_str(&format!("l_{}_seq = {}{{ \"x\" ~ \"y\" }}\n", kinds_name(k), k.sigil()));
         out.push_str(&format!("l_{}_rep = {}{{ \"x\"+ }}\n", kinds_name(k), k.sigil()));
+        out.push_str(&format!("l_{}_star = {}{{ \"x\"* ~ \"y\" }}\n", kinds_name(k), k.sigil()));
     }
     for k1 in Kind::ALL {
         for k2 in Kind::ALL {
             let (a, b) = (kinds_name(k1), kinds_name(k2));
             out.push_str(&format!("m_{}{}_seq = {}{{ \"a\" ~ l_{}_seq ~ \"b\" }}\n", a, b, k1.sigil(), b));
             out.push_str(&format!("m_{}{}_rep = {}{{ (l_{}_rep ~ \";\")+ }}\n", a, b, k1.sigil(), b));
+            out.push_str(&format!("m_{}{}_star = {}{{ \"a\" ~ l_{}_star ~ (l_{}_star)* }}\n", a, b, k1.sigil(), b, b));
         }
     }
     if depth3 {
@@ -115,6 +117,32 @@ pub fn slice_grammar(lo: i32, hi: i32) -> String {
         for b in lo..=hi {
             out.push_str(&format!("s_{}_{} = ${{ (PUSH(item) ~ \",\")* ~ \";\" ~ PEEK[{}..{}] ~ \"!\" }}\n", n(a), n(b), a, b));
         }
+    }
+    out
+}
+
+/// Stack-scope family (C05, C01, C03): every backtracking construct around a stack operation
+/// that succeeds before the construct fails, followed by a stack read that tells; in a normal
+/// (parse path) and an atomic / compound (check path) version.
+pub fn stackscope_grammar() -> String {
+    let bodies = [
+        ("opt", "PUSH(\"x\") ~ (PUSH(\"a\") ~ \"b\")? ~ \"a\" ~ POP ~ POP?"),
+        ("alt", "PUSH(\"x\") ~ (PUSH(\"a\") ~ \"b\" | \"a\") ~ POP ~ \"!\""),
+        ("rep", "PUSH(\"x\") ~ (PUSH(\"a\") ~ \"b\")* ~ \"a\"? ~ PEEK_ALL ~ \"!\""),
+        ("pos", "PUSH(\"x\") ~ &(PUSH(\"a\") ~ \"a\") ~ \"a\" ~ PEEK_ALL ~ \"!\""),
+        ("neg", "PUSH(\"x\") ~ !(PUSH(\"a\") ~ \"b\") ~ \"a\" ~ PEEK_ALL ~ \"!\""),
+        ("dropalt", "PUSH(\"x\") ~ PUSH(\"y\") ~ (DROP ~ \"b\" | \"a\") ~ POP ~ POP ~ \"!\""),
+        ("popopt", "PUSH(\"x\") ~ PUSH(\"y\") ~ (POP ~ \"b\")? ~ PEEK ~ \"!\""),
+        ("popallalt", "PUSH(\"x\") ~ PUSH(\"y\") ~ (POP_ALL ~ \"!\" | \"yx\") ~ PEEK_ALL ~ \"?\""),
+        ("nested", "PUSH(\"x\") ~ ((PUSH(\"a\") ~ (PUSH(\"b\") ~ \"c\")? ~ \"d\")? ~ \"ab\")? ~ PEEK_ALL ~ \"!\""),
+        ("repalt", "(PUSH(\"a\") ~ \"-\" | PUSH(\"b\") ~ \"+\" ~ \"+\")* ~ \";\" ~ POP_ALL ~ \"!\""),
+        ("viarule", "PUSH(\"x\") ~ pusher? ~ \"a\" ~ POP ~ \"!\""),
+    ];
+    let mut out = String::from("pusher = { PUSH(\"a\") ~ \"b\" }\n");
+    for (n, b) in bodies {
+        out.push_str(&format!("so_{} = {{ {} }}\n", n, b));
+        out.push_str(&format!("sa_{} = @{{ {} }}\n", n, b));
+        out.push_str(&format!("sc_{} = ${{ {} }}\n", n, b));
     }
     out
 }
@@ -208,6 +236,11 @@ pub fn build(seed: u64, tier: Tier) -> Corpus {
     let (lo, hi) = tier.pick((-3, 3), (-6, 6));
     specs.push(Spec::new("slice", "slice", &slice_grammar(lo, hi)));
     specs.push(Spec::new("stackbuiltin", "slice", &stack_builtin_grammar()));
+    {
+        let mut s = Spec::new("stackscope", "stack", &stackscope_grammar());
+        s.forms = true;
+        specs.push(s);
+    }
     // options family (C20): recursive grammars x option sets, each variant its own module
     let n_opt = tier.pick(5, 10);
     let mut rng = Rng::new(sub_seed(seed, "corpus.options"));
